@@ -70,7 +70,8 @@ def op_cases(tier):
 
 def cases(tier, seed):
     oc = op_cases(tier)
-    return [{"ops": oc[i:i + PACK], "refs": r} for r in (False, True) for i in range(0, len(oc), PACK)]
+    solo = [ops.op("get", "/r", [], None, {"200": "union-model-or-array"})]   # alone: the first thing the converter sees in its process
+    return [{"ops": solo, "refs": False}] + [{"ops": oc[i:i + PACK], "refs": r} for r in (False, True) for i in range(0, len(oc), PACK)]
 
 
 # ----------------------------------------------------------------------------------------------
